@@ -20,6 +20,8 @@
 //   --eobj 0|1      setFather / addSon with an edge object (tree)
 //   --anc 0|1       MRCA / path queries with unequal depths (ancestor arguments)
 //   --onechild 0|1  leaves-under on nodes having a one-son descendant
+//   --outgroup 0|1  tree setOutGroup
+//   --dagroot 0|1   DAG rootAt
 #include <Bpp/Exceptions.h>
 #include <Bpp/Graph/AssociationDAGraphImplObserver.h>
 #include <Bpp/Graph/AssociationTreeGraphImplObserver.h>
@@ -46,10 +48,11 @@ typedef AssociationDAGlobalGraphObserver<std::string, unsigned int> DagObs;
 
 static const int NPOOL = 16; // edge objects 1..16
 static long g_scen = 0;
+static bool g_everyRoot = false;
 
 struct Flags
 {
-  bool dups, uedit, unroot, eobj, anc, onechild;
+  bool dups, uedit, unroot, eobj, anc, onechild, outgroup, dagroot;
 };
 static Flags F;
 
@@ -313,6 +316,123 @@ struct TreeH : Harness<TreeObs, true>
     std::string r = call([&]() { v = const_cast<const TreeObs&>(*obs).isRooted(); });
     ev("QRooted", Arr(), r == "ok" ? (v ? "T" : "F") : r);
   }
+  // graph level only (no observer wrapper); the node it creates gets a node object afterwards
+  // so that later calls through the observer can name it
+  void setOutGroup(long g)
+  {
+    std::string r = call([&]() { obs->getGraph()->setOutGroup(static_cast<Graph::NodeId>(g)); });
+    adoptNewNodes();
+    ev("SetOutGroup", Arr().add(g), r);
+  }
+  void adoptNewNodes()
+  {
+    call([&]() {
+      for (auto n : obs->getGraph()->getAllNodes())
+        if (!const_cast<const TreeObs&>(*obs).getNodeFromGraphid(n))
+        {
+          auto o = std::make_shared<std::string>("g" + std::to_string(n));
+          obs->associateNode(o, n);
+          if (N.size() <= n) N.resize(n + 1, ghost);
+          N[n] = o;
+        }
+    });
+  }
+  void removeSons(long n)
+  {
+    std::vector<unsigned> sons;
+    std::string r = call([&]() {
+      if (g_scen % 2)
+      {
+        auto v = obs->removeSons(nobj(n));
+        for (auto& o : v) sons.push_back(obs->getNodeGraphid(o));
+      }
+      else
+      {
+        obs->getNodeGraphid(nobj(n)); // absent nodes are refused by the observer
+        auto v = obs->getGraph()->removeSons(static_cast<Graph::NodeId>(n));
+        sons.assign(v.begin(), v.end());
+      }
+    });
+    Obj o;
+    o.kv("e", "RemoveSons").kv("a", Arr().add(n)).kv("r", r).kv("sons", arrU(sons));
+    emit(o);
+  }
+  std::vector<unsigned> idsOf(const std::vector<std::shared_ptr<std::string>>& v) const
+  {
+    std::vector<unsigned> r;
+    for (auto& o : v) r.push_back(o ? const_cast<const TreeObs&>(*obs).getNodeGraphid(o) : 999999u);
+    return r;
+  }
+  static std::vector<unsigned> valsOf(const std::vector<std::shared_ptr<unsigned int>>& v)
+  {
+    std::vector<unsigned> r;
+    for (auto& o : v) r.push_back(o ? *o : 0u);
+    return r;
+  }
+  // the object-level API of AssociationTreeGraphObserver
+  void qObj(const std::vector<unsigned>& ns)
+  {
+    const TreeObs& co = *obs;
+    Arr rows;
+    for (auto n : ns)
+    {
+      auto no = nobj(n);
+      std::vector<unsigned> sons, br, lv, sn, se, it1, it2;
+      long nsn = -1;
+      bool hf = false;
+      call([&]() { sons = idsOf(co.getSons(no)); });
+      call([&]() { br = valsOf(co.getBranches(no)); });
+      if (call([&]() { lv = idsOf(co.getLeavesUnderNode(no)); }) != "ok") lv.assign(1, 999999);
+      call([&]() { nsn = static_cast<long>(co.getNumberOfSons(no)); });
+      call([&]() { hf = co.hasFather(no); });
+      if (call([&]() { sn = idsOf(co.getSubtreeNodes(no)); }) != "ok") sn.assign(1, 999999);
+      if (call([&]() { se = valsOf(co.getSubtreeEdges(no)); }) != "ok") se.assign(1, 999999);
+      call([&]() {
+        auto it = co.sonsIterator(no);
+        for (; !it->end(); it->next()) it1.push_back(co.getNodeGraphid(**it));
+      });
+      call([&]() {
+        auto it = co.branchesIterator(no);
+        for (; !it->end(); it->next())
+          if (**it) it2.push_back(***it);
+      });
+      rows.add(Arr().add((long long)n).add(arrU(sons)).add(arrU(br)).add(arrU(lv)).add(nsn).add(hf).add(arrU(sn)).add(arrU(se)).add(arrU(it1)).add(arrU(it2)));
+    }
+    evRows("QObj", rows);
+  }
+  void qEdgeObj()
+  {
+    const TreeObs& co = *obs;
+    Arr rows;
+    for (int k = 1; k <= NPOOL; ++k)
+    {
+      if (!co.hasEdge(E[k])) continue;
+      long son = -1, fat = -1, top = -1, bot = -1;
+      call([&]() { son = co.getNodeGraphid(co.getSon(E[k])); });
+      call([&]() { fat = co.getNodeGraphid(co.getFatherOfEdge(E[k])); });
+      call([&]() {
+        auto pr = co.getNodes(E[k]);
+        top = co.getNodeGraphid(pr.first);
+        bot = co.getNodeGraphid(pr.second);
+      });
+      rows.add(Arr().add(k).add(son).add(fat).add(top).add(bot));
+    }
+    evRows("QEdgeObj", rows);
+  }
+  void qPathObj(const std::vector<std::pair<unsigned, unsigned>>& ps)
+  {
+    const TreeObs& co = *obs;
+    Arr rows;
+    for (auto& p : ps)
+    {
+      std::vector<unsigned> p1, p2, p3;
+      if (call([&]() { p1 = idsOf(co.getNodePathBetweenTwoNodes(nobj(p.first), nobj(p.second), true)); }) != "ok") p1.assign(1, 999999);
+      if (call([&]() { p2 = idsOf(co.getNodePathBetweenTwoNodes(nobj(p.first), nobj(p.second), false)); }) != "ok") p2.assign(1, 999999);
+      if (call([&]() { p3 = valsOf(co.getEdgePathBetweenTwoNodes(nobj(p.first), nobj(p.second))); }) != "ok") p3.assign(1, 999999);
+      rows.add(Arr().add((long long)p.first).add((long long)p.second).add(arrU(p1)).add(arrU(p2)).add(arrU(p3)));
+    }
+    evRows("QPathObj", rows);
+  }
 
   // structural queries; a call that raises is logged as -1 / ["?"]
   void qFather(const std::vector<unsigned>& ns)
@@ -467,6 +587,12 @@ struct TreeH : Harness<TreeObs, true>
       }
     }
     qPath(ps);
+    if (exhaustive || rng.coin())
+    {
+      qObj(ns);
+      qEdgeObj();
+      qPathObj(ps);
+    }
     std::vector<std::vector<unsigned>> sets;
     if (exhaustive)
     {
@@ -574,6 +700,31 @@ struct DagH : Harness<DagObs, false>
     bool v = false;
     std::string r = call([&]() { v = const_cast<const DagObs&>(*obs).isRooted(); });
     ev("QRooted", Arr(), r == "ok" ? (v ? "RT" : "RF") : r);
+  }
+  void rootAt(long r) { ev("RootAt", Arr().add(r), call([&]() { obs->rootAt(nobj(r)); })); }
+  // can the graph hang from r at all?  connected and simple when read without directions
+  bool orientable(long r) const
+  {
+    if (!hasNode(r)) return false;
+    for (auto& e : edges)
+      if (e.second.first == e.second.second) return false;
+    if (reciprocal()) return false;
+    return reach(r, false).size() == nodes.size();
+  }
+  void rootings(vt::Rng& rng, bool everyRoot)
+  {
+    if (!F.dagroot || nodes.empty()) return;
+    std::vector<unsigned> order = nodes;
+    for (size_t i = order.size(); i > 1; --i) std::swap(order[i - 1], order[rng.below(i)]);
+    if (!everyRoot) order.resize(1);
+    for (auto r : order)
+    {
+      if (!orientable(r)) continue;
+      if (rng.coin()) qValid(); // with filled or empty caches
+      if (rng.coin()) qRooted();
+      rootAt(r);
+      battery();
+    }
   }
   void qFathers()
   {
@@ -725,6 +876,12 @@ static void modeShapes(size_t maxn, vt::Rng& rng)
       h.qValid();
       if (!unrooted) h.battery(rng, true, 0);
       rerootings(h, rng, true, 0, 0);
+      if (F.outgroup)
+      { // a new root between a node and its father (every node in turn over the shapes; the root is refused)
+        h.setOutGroup(h.nodes[rng.below(h.nodes.size())]);
+        h.qValid();
+        if (h.d && h.looksTree()) h.battery(rng, h.nodes.size() <= 7, 12);
+      }
     }
 }
 
@@ -753,6 +910,12 @@ static void modeRTrees(size_t count, size_t lo, size_t hi, vt::Rng& rng)
     h.qValid();
     if (!unrooted) h.battery(rng, false, 24);
     rerootings(h, rng, false, 3, 24);
+    if (F.outgroup && rng.coin())
+    {
+      h.setOutGroup(h.nodes[rng.below(h.nodes.size())]);
+      h.qValid();
+      if (h.d && h.looksTree()) h.battery(rng, false, 12);
+    }
   }
 }
 
@@ -859,7 +1022,19 @@ static void modeHist(size_t count, size_t len, size_t maxNodes, vt::Rng& rng)
         h.qValid();
         break;
       case 14:
-        if (!h.nodes.empty() && (h.d || !h.looksTree())) h.qSub(h.nodes[rng.below(h.nodes.size())]);
+        if (rng.chance(1, 3))
+        {
+          if (F.outgroup && created < maxNodes + 2)
+          {
+            h.setOutGroup(a);
+            created = h.N.size();
+          }
+        }
+        else if (rng.chance(1, 2))
+        {
+          if (!undirected || F.uedit) h.removeSons(a);
+        }
+        else if (!h.nodes.empty() && (h.d || !h.looksTree())) h.qSub(h.nodes[rng.below(h.nodes.size())]);
         break;
       default:
         if (h.d && h.looksTree())
@@ -883,7 +1058,7 @@ static void modeHist(size_t count, size_t len, size_t maxNodes, vt::Rng& rng)
 // Each edit kind is tried with the cache filled by isValid(), by getSubtreeNodes(), or left empty.
 static void modeCacheWalk(size_t count, vt::Rng& rng)
 {
-  const int KINDS = 22;
+  const int KINDS = 25;
   for (size_t k = 0; k < count; ++k)
   {
     size_t n = 2 + rng.below(5);
@@ -958,7 +1133,10 @@ static void modeCacheWalk(size_t count, vt::Rng& rng)
         case 18: h.deleteNode(absent); break;
         case 19: h.rootAt(absent); break;
         case 20: h.setRoot(absent); break;
-        default: h.link(a, b, usedObj); break; // an object that is already attached (or none)
+        case 21: h.link(a, b, usedObj); break; // an object that is already attached (or none)
+        case 22: if (F.outgroup) h.setOutGroup(a); break;
+        case 23: if (F.outgroup) h.setOutGroup(h.root); break; // refused: the root has no father
+        default: if (!und || F.uedit) h.removeSons(a); break;
         }
         // first query after the edit: validity, or a guarded structural query
         if (rng.chance(1, 3) && !h.nodes.empty() && (h.d || !h.looksTree())) h.qSub(h.nodes[rng.below(h.nodes.size())]);
@@ -996,6 +1174,7 @@ static void dagFromMask(size_t n, unsigned long mask, bool loops, vt::Rng& rng)
     h.addEdge(es[i].first, es[i].second, rng, true);
   }
   h.battery();
+  h.rootings(rng, g_everyRoot || n <= 3);
   // one more edit, then ask again (query / mutate / query)
   if (!es.empty())
   {
@@ -1052,6 +1231,7 @@ static void modeDHist(size_t count, size_t len, size_t maxNodes, vt::Rng& rng)
         if (rng.chance(1, 8)) h.qRooted();
       }
       h.battery();
+      h.rootings(rng, false);
       continue;
     }
     DagH h;
@@ -1113,7 +1293,11 @@ static void modeDHist(size_t count, size_t len, size_t maxNodes, vt::Rng& rng)
         h.qRooted();
         break;
       case 10:
-        if (!h.nodes.empty()) h.qBelow(h.nodes[rng.below(h.nodes.size())]);
+        if (F.dagroot && rng.coin())
+        {
+          if (!h.hasNode(a) || h.orientable(a)) h.rootAt(a);
+        }
+        else if (!h.nodes.empty()) h.qBelow(h.nodes[rng.below(h.nodes.size())]);
         break;
       default:
         h.qFathers();
@@ -1127,7 +1311,7 @@ static void modeDHist(size_t count, size_t len, size_t maxNodes, vt::Rng& rng)
 // ------------------------------------------------------------------ probes: one scenario per known finding
 static void modeProbe(const std::string& which, vt::Rng& rng)
 {
-  Flags all = {true, true, true, true, true, true};
+  Flags all = {true, true, true, true, true, true, true, true};
   F = all;
   if (which == "leaves-one-son")
   { // 0 -> 1 -> 2 : leaves under 0 = {2}
@@ -1201,6 +1385,39 @@ static void modeProbe(const std::string& which, vt::Rng& rng)
     h.addSon(0, 0, 0);
     h.qValid();
   }
+  else if (which == "outgroup")
+  { // 0 -> {1, 2}, 1 -> 3 : a root between 3 and its father 1
+    TreeH h;
+    h.reset(true);
+    for (int i = 0; i < 4; ++i) h.createNode();
+    h.link(0, 1, 1);
+    h.link(0, 2, 2);
+    h.link(1, 3, 3);
+    h.qValid();
+    h.setOutGroup(3);
+    h.qValid();
+    h.setOutGroup(h.root); // refused
+    h.qValid();
+  }
+  else if (which == "dag-rootat")
+  {
+    DagH h;
+    h.reset(true);
+    for (int i = 0; i < 4; ++i) h.createNode();
+    h.addSon(0, 1, 1);
+    h.addSon(0, 2, 0);
+    h.addSon(1, 3, 2);
+    h.addSon(2, 3, 0);
+    h.battery();
+    h.rootAt(3);
+    h.battery();
+    h.rootAt(1);
+    h.battery();
+    h.addSon(3, 0, 0); // now cyclic
+    h.qValid();
+    h.rootAt(2);
+    h.battery();
+  }
   else if (which == "dag-rooted-cache")
   {
     DagH h;
@@ -1263,8 +1480,11 @@ int main(int argc, char** argv)
   F.eobj = vt::argInt(argc, argv, "--eobj", 0) != 0;
   F.anc = vt::argInt(argc, argv, "--anc", 0) != 0;
   F.onechild = vt::argInt(argc, argv, "--onechild", 0) != 0;
+  F.outgroup = vt::argInt(argc, argv, "--outgroup", 0) != 0;
+  F.dagroot = vt::argInt(argc, argv, "--dagroot", 0) != 0;
   uint64_t seed = vt::envSeed() * 1000003ULL + static_cast<uint64_t>(vt::argInt(argc, argv, "--salt", 0));
   vt::Rng rng(seed);
+  g_everyRoot = vt::argInt(argc, argv, "--everyroot", 0) != 0;
   size_t n = static_cast<size_t>(vt::argInt(argc, argv, "--n", 50));
   size_t maxn = static_cast<size_t>(vt::argInt(argc, argv, "--maxn", 5));
   if (mode == "shapes") modeShapes(maxn, rng);
